@@ -51,6 +51,7 @@ func (c *mchild) ServeNostr(ctx context.Context, send chan<- mocrelay.ServerMsg,
 }
 
 type mergeRig struct {
+	h        mocrelay.Handler
 	n        int
 	children []*mchild
 	recv     chan mocrelay.ClientMsg
@@ -70,11 +71,29 @@ func newMergeRig(n int) *mergeRig {
 		r.children = append(r.children, c)
 		hs[i] = c
 	}
-	h := mocrelay.NewMergeHandler(hs...)
+	r.h = mocrelay.NewMergeHandler(hs...)
+	r.start()
+	return r
+}
+
+func (r *mergeRig) start() {
+	r.recv, r.send, r.ret = make(chan mocrelay.ClientMsg), make(chan mocrelay.ServerMsg), make(chan error, 1)
 	ctx, cancel := context.WithCancel(context.Background())
 	r.cancel = cancel
-	go func() { r.ret <- h.ServeNostr(ctx, r.send, r.recv) }()
-	return r
+	recv, send, ret := r.recv, r.send, r.ret
+	go func() { ret <- r.h.ServeNostr(ctx, send, recv) }()
+}
+
+// restart ends the session (whatever is in flight) and starts a new one on the same merged handler.
+func (r *mergeRig) restart() error {
+	r.cancel()
+	select {
+	case <-r.ret:
+	case <-time.After(stepTimeout):
+		return fmt.Errorf("merged ServeNostr did not return after cancel")
+	}
+	r.start()
+	return nil
 }
 
 func (r *mergeRig) close() error {
@@ -574,6 +593,9 @@ func TestMergeC08C09(t *testing.T) {
 				}
 			}
 			acts = append(acts, "notice")
+			if nextChild == n && k > 3 {
+				acts = append(acts, "restart")
+			}
 			for i := 0; i < n; i++ {
 				if len(owesEOSE[i]) > 0 {
 					acts = append(acts, fmt.Sprintf("closed%d", i))
@@ -618,6 +640,23 @@ func TestMergeC08C09(t *testing.T) {
 			case a == "COUNT":
 				// COUNT ids overlap the REQ/CLOSE ids: a CLOSE must not disturb a COUNT in flight
 				doClientSend(&mocrelay.ClientCountMsg{SubscriptionID: rapid.SampledFrom([]string{"x", "a", "b"}).Draw(t, lab+"sub"), ReqFilters: []*mocrelay.ReqFilter{{}}})
+			case a == "restart":
+				// the connection goes away with requests in flight; the next connection on the
+				// same merged handler starts from a clean slate
+				trace = append(trace, mstep{Op: "session ends, new session starts"})
+				if err := rig.restart(); err != nil {
+					stalled(err)
+				}
+				bcast, nextChild = nil, n
+				inst = map[string]*reqInstance{}
+				okSubs = map[string][]*okSubmission{}
+				countSubs = map[string][]*countSubmission{}
+				submitted, answered = map[string]int{}, map[string]int{}
+				for i := 0; i < n; i++ {
+					owesEOSE[i], everReq[i] = map[string]bool{}, map[string]bool{}
+					owesOK[i], owesCount[i] = nil, nil
+				}
+				c09.Label("session-restart")
 			case a == "notice":
 				doEmit(rapid.IntRange(0, n-1).Draw(t, lab+"child"), mocrelay.NewServerNoticeMsg("hello"))
 			case strings.HasPrefix(a, "closed"):
@@ -929,6 +968,23 @@ func TestMergeFreeRunning(t *testing.T) {
 			children[i] = c
 			hs[i] = c
 		}
+		// occasionally: a bulk import - every child replays the same large set of events that
+		// share one created_at (de-duplication must not depend on the volume)
+		if rapid.IntRange(0, 39).Draw(t, "bulk") == 0 {
+			nb := rapid.IntRange(300, 5000).Draw(t, "bulk_n")
+			var bulk []*mocrelay.Event
+			for j := 0; j < nb; j++ {
+				e := &mocrelay.Event{Pubkey: authors[0], Kind: 1, CreatedAt: 150, Content: fmt.Sprint("bulk", j)}
+				gen.Seal(e)
+				bulk = append(bulk, e)
+			}
+			s0 := subIDs[0]
+			subFilters[s0] = []*mocrelay.ReqFilter{{Kinds: []int64{1}}}
+			for _, c := range children {
+				c.stored[s0] = bulk
+			}
+			c08.Label("bulk-same-timestamp")
+		}
 		// client script
 		var script []mocrelay.ClientMsg
 		var briefs []any
@@ -1044,7 +1100,11 @@ func TestMergeFreeRunning(t *testing.T) {
 		}
 		fail := func(prop, sig, clause, obs string) {
 			if mergeFocus(prop) {
-				hx.Fail(t, ev.Failure{Property: prop, Signature: sig, Clause: clause, Case: map[string]any{"case": desc, "stream": briefServers(stream)}, Observed: obs})
+				shown := stream
+				if len(shown) > 300 {
+					shown = shown[:300]
+				}
+				hx.Fail(t, ev.Failure{Property: prop, Signature: sig, Clause: clause, Case: map[string]any{"case": desc, "stream_len": len(stream), "stream_head": briefServers(shown)}, Observed: obs})
 			}
 		}
 		// C09
